@@ -11,6 +11,7 @@ ALLC = ['parse_indexes', 'scope', 'parse_path', 'parse_deletion_date']
 def config(tier):
     return {
         'level': 'exploration',
+        'cold_sample': 3 if tier == 'quick' else 20,
         'cases': 3600 if tier == 'quick' else 60000,
         'budget_s': 50 if tier == 'quick' else 560,
         'floors': {'cases': 200, 'c_parse_indexes': 40000,
